@@ -273,12 +273,39 @@ def tlist(g):
 
 
 # --------------------------------------------------------------------------- oracle on one (state, data set)
-def oracle_case(ctx, s, kind, space, bases, samples, case, full_fd=True):
+def snapshot(x):
+    """shape / strides / values of a tensor or array argument"""
+    if hasattr(x, "detach"):
+        return ("tensor", tuple(x.shape), tuple(x.stride()), str(x.dtype), x.detach().clone().numpy().tolist())
+    if isinstance(x, np.ndarray):
+        return ("ndarray", x.shape, x.strides, str(x.dtype), x.tolist())
+    return ("other", repr(x))
+
+
+def analytic_relation(ctx, what, kind, am, ph, nv, groups, EX, case):
+    """compute_exact_gradients against the analytic log-domain oracle; ill-conditioned data sets are only counted"""
+    try:
+        good, det, err = analytic_matches(kind, am, ph, nv, groups, EX)
+    except Exception as e:                       # the oracle itself failed (never the library's fault): count, no verdict
+        ctx.count("analytic_oracle_error:" + type(e).__name__)
+        return None
+    if good is None:
+        ctx.count("analytic_skipped_cancellation")
+        return None
+    ctx.count("analytic_compared")
+    if good and err == err:
+        ctx.extra["analytic_max_scaled_error"] = max(ctx.extra.get("analytic_max_scaled_error", 0.0), err)
+    ctx.require(what, good, case, det)
+    return good
+
+
+def oracle_case(ctx, s, kind, space, bases, samples, case, full_fd=True, am=None, ph=None):
     import torch
     smp = torch.tensor(samples, dtype=torch.double)
     B = len(bases)
     nb = np_bases(bases)
     Ucache = {}
+    snap0 = (snapshot(smp), snapshot(nb), snapshot(space))
     kw = {} if kind == "positive" else {"bases": nb}
     kwb = {} if kind == "positive" else {"bases_batch": nb}
     ok, G = ctx.call("gradient", case, lambda: tlist(s.gradient(smp, **kw)))
@@ -298,6 +325,10 @@ def oracle_case(ctx, s, kind, space, bases, samples, case, full_fd=True):
         f = make_nll(s, kind, space, bases, samples, Ucache)
         good, det = fd_matches(s, f, EX)
         ctx.require("compute_exact_gradients == finite-difference gradient of the NLL", good, case, det)
+    # -- the analytic gradient of the NLL (own log-domain implementation of the state; also valid for improbable outcomes)
+    if am is not None:
+        analytic_relation(ctx, "compute_exact_gradients == analytic gradient of the NLL (independent log-domain implementation)",
+                          kind, am, ph, int(smp.shape[1]), rows_to_groups(bases, samples, int(smp.shape[1])), EX, case)
     # -- positive phase = gradient / |batch|
     for k in range(nnet):
         ctx.require("positive_phase_gradients == gradient / |batch|",
@@ -351,8 +382,59 @@ def oracle_case(ctx, s, kind, space, bases, samples, case, full_fd=True):
         if okc:
             ctx.require("Positive.compute_exact_gradients ignores bases", bool(np.allclose(Ec[0], EX[0], rtol=1e-9, atol=1e-11 * scale[0])), case)
     bases_call_forms(ctx, s, kind, space, smp, bases, nb, case, G, PP, EX, scale)
+    same_object_calls(ctx, s, kind, space, smp, bases, nb, case, G, PP, EX, scale, snap0)
     one_d_public_forms(ctx, s, kind, space, smp, nb, case)
     return G, PP, EX
+
+
+def same_object_calls(ctx, s, kind, space, smp, bases, nb, case, G, PP, EX, scale, snap0):
+    """Histories on the caller's OWN argument objects.  A data loop hands the same tensors / arrays to the gradient
+    methods again and again; the property makes every such call return the gradient of the data the caller holds.
+      * 1-D form: ONE sample tensor object (a clone, not a view of the batch) and ONE basis object, called twice, then
+        with a second basis; each call must be callable and return the per-sample gradient of the ORIGINAL row;
+      * batch form: after all the calls above, the same `smp` / `nb` / `space` objects once more through all three public methods;
+    shape / stride / value changes of the arguments are recorded in the evidence histogram (args_after_calls:*) — the
+    requirement itself is only what the property states: the repeated call is callable and agrees."""
+    B = len(bases)
+    sc = max(scale)
+    pos = kind == "positive"
+    rows = list(range(B))
+    rot = [i for i in rows if set(bases[i]) != {"Z"}]
+    i = (rot or rows)[int(ctx.rng.integers(0, len(rot or rows)))]
+    others = [j for j in rows if bases[j] != bases[i]]
+    row = smp[i].clone()                                        # the caller's own 1-D tensor
+    bobj = nb[i].copy()
+    b2 = nb[others[int(ctx.rng.integers(0, len(others)))]].copy() if others else None
+    r0, bsnap = snapshot(row), snapshot(bobj)
+    ref = None
+    for step in ("first call", "second call with the same sample tensor and basis objects", "third call: same sample tensor, another basis"):
+        barg = bobj if not step.startswith("third") else b2
+        if barg is None:
+            continue
+        c2 = dict(case, row=i, history="gradient 1-D form: " + step, basis_of_call="".join(barg))
+        okk, g = ctx.call("gradient 1-D form (%s)" % step, c2, lambda: tlist(s.gradient(row) if pos else s.gradient(row, bases=barg)))
+        if not okk:
+            break
+        okf, fresh = ctx.call("gradient 1-D form", c2, lambda: tlist(s.gradient(smp[i].clone()) if pos else s.gradient(smp[i].clone(), bases=barg.copy())))
+        if okf:
+            ctx.require("gradient 1-D form called again with the same tensor object == per-sample gradient of the caller's row",
+                        close_all([np.broadcast_to(x, np.shape(y)) for x, y in zip(g, fresh)], fresh, sc), c2,
+                        {"row_shape_now": list(row.shape), "row_now": row.reshape(-1).tolist(), "row_before": r0[4]})
+        ctx.count("args_after_calls:1d_sample:" + ("unchanged" if snapshot(row) == r0 else "changed"))
+        ctx.count("args_after_calls:1d_basis:" + ("unchanged" if snapshot(bobj) == bsnap else "changed"))
+    # ---- batch form, same objects once more
+    kwa = {} if pos else {"bases": nb}
+    kwb = {} if pos else {"bases_batch": nb}
+    c2 = dict(case, history="all public gradient methods once more with the same sample tensor / bases array / space objects")
+    for name, fn, want in (("gradient", lambda: s.gradient(smp, **kwa), G),
+                           ("positive_phase_gradients", lambda: s.positive_phase_gradients(smp, **kwb), PP),
+                           ("compute_exact_gradients", lambda: s.compute_exact_gradients(smp, space, **kwb), EX)):
+        okk, g = ctx.call(name + " (same argument objects again)", c2, lambda: tlist(fn()))
+        if okk:
+            ctx.require(name + " called again with the same argument objects returns the same gradient", close_all(g, want, sc), c2)
+    now = (snapshot(smp), snapshot(nb), snapshot(space))
+    for nm, a, b in zip(("samples", "bases", "space"), snap0, now):
+        ctx.count("args_after_calls:%s:%s" % (nm, "unchanged" if a == b else "changed"))
 
 
 LIST_OF_STRINGS_MATCH = {"call": "gradient", "bases_form": "list of basis strings"}
@@ -415,6 +497,50 @@ def bases_call_forms(ctx, s, kind, space, smp, bases, nb, case, G, PP, EX, scale
         okk, g = ctx.call("compute_exact_gradients, bases given as " + name, c2, lambda: tlist(s.compute_exact_gradients(smp, space, bases_batch=enc)))
         if okk:
             ctx.require("compute_exact_gradients does not depend on the encoding of the bases", close_all(g, EX, sc), c2)
+    # ---- memory layouts: numpy.ndarray / torch.Tensor are the documented types, no layout is prescribed.  The same VALUES as
+    #      Fortran-order / column-strided / row-strided / negative-stride arrays and as strided views of larger tensors.
+    import torch
+    nvv = nb.shape[1]
+    wide = np.full((B, 2 * nvv), "X", dtype=nb.dtype); wide[:, ::2] = nb
+    tall = np.full((2 * B, nvv), "Y", dtype=nb.dtype); tall[::2] = nb
+    rev = nb[::-1].copy()
+    wide_t = torch.full((B, 2 * nvv), 0.5, dtype=smp.dtype); wide_t[:, ::2] = smp
+    tall_t = torch.full((2 * B, nvv), 0.5, dtype=smp.dtype); tall_t[::2] = smp
+    layouts = (("bases: Fortran-order array", np.asfortranarray(nb), smp),
+               ("bases: every second column of a wider table", wide[:, ::2], smp),
+               ("bases: every second row of a taller table", tall[::2], smp),
+               ("bases: transposed copy, transposed back", nb.T.copy().T, smp),
+               ("bases: negative row stride", rev[::-1], smp),
+               ("samples: every second column of a wider tensor", nb, wide_t[:, ::2]),
+               ("samples: every second row of a taller tensor", nb, tall_t[::2]),
+               ("samples: column-major storage", nb, smp.t().contiguous().t()),
+               ("samples and bases: strided views", wide[:, ::2], wide_t[:, ::2]))
+    for li, (name, barr, sten) in enumerate(layouts):
+        ctx.count("layout:" + name)
+        c2 = dict(case, layout=name, bases_strides=list(barr.strides), samples_strides=list(sten.stride()))
+        okk, g = ctx.call("gradient, " + name, c2, lambda: tlist(s.gradient(sten, bases=barr)))
+        if okk:
+            ctx.require("gradient does not depend on the memory layout of samples / bases", close_all(g, G, sc), c2)
+        if li != (ctx.evaluations + 1) % len(layouts) and not ctx.thorough:
+            continue
+        okk, g = ctx.call("positive_phase_gradients, " + name, c2, lambda: tlist(s.positive_phase_gradients(sten, bases_batch=barr)))
+        if okk:
+            ctx.require("positive_phase_gradients does not depend on the memory layout of samples / bases", close_all(g, PP, sc), c2)
+        okk, g = ctx.call("compute_exact_gradients, " + name, c2, lambda: tlist(s.compute_exact_gradients(sten, space, bases_batch=barr)))
+        if okk:
+            ctx.require("compute_exact_gradients does not depend on the memory layout of samples / bases", close_all(g, EX, sc), c2)
+    for i in picks[:1]:                                   # 1-D form: a strided sample row and a strided basis row
+        okr, ref = ctx.call("gradient 1-D form", case, lambda: tlist(s.gradient(smp[i], bases=nb[i])))
+        if okr:
+            for name, brow, srow in (("1-D: basis row of a Fortran-order array", np.asfortranarray(nb)[i], smp[i]),
+                                     ("1-D: every second entry of a longer basis row", wide[i, ::2], smp[i]),
+                                     ("1-D: every second entry of a longer sample row", nb[i], wide_t[i, ::2]),
+                                     ("1-D: sample column of the transposed batch", nb[i], smp.t().contiguous()[:, i])):
+                ctx.count("layout:" + name)
+                c2 = dict(case, layout=name, row=i)
+                okk, g = ctx.call("gradient 1-D form, " + name, c2, lambda: tlist(s.gradient(srow, bases=brow)))
+                if okk:
+                    ctx.require("gradient 1-D form does not depend on the memory layout of the sample / basis", close_all(g, ref, sc), c2)
     # ---- a batch given as a list of whole basis strings (["XY", "ZZ", ...]): recorded; required only when a known-findings
     #      entry matching LIST_OF_STRINGS_MATCH is open (on /repo this form raises IndexError — reported to the integrator)
     try:
@@ -782,6 +908,454 @@ def history_case(ctx, s, kind, space, bases, samples, case):
         recheck(history[-1], smp, nb, bases, samples, history)
 
 
+# --------------------------------------------------------------------------- large same-basis groups (size regime)
+# The property quantifies over data sets with ANY multiset of basis strings, "however the batch is ordered or grouped by
+# basis".  A memory-bounding rewrite (process a same-basis group / a batch / the rows handed to a helper in pieces of at
+# most L rows) is invisible on small batches.  The cases below put groups of L-1, L, L+1 rows for the usual block sizes L
+# and primes just above them (a prime p leaves a remainder p % k != 0 for EVERY piece count 2 <= k < p) into one batch:
+# in rotated bases, in the all-Z group, for every state type, and as the whole batch (bases=None form, Positive).
+# Oracles (all vectorised over the rows: the NLL and the per-sample sum only need the count of every (basis, outcome)):
+#   finite differences of the count-weighted NLL built from the implementation's own psi / rho / normalization;
+#   gradient(batch) == sum over (basis, outcome) of count * per-sample gradient (1-D call form);
+#   positive phase == gradient / |batch|; row permutation; split into contiguous parts; the extracted Coq model.
+BLOCK_LIMITS = (256, 512, 1000, 1024, 2048, 4096)
+BOUNDARY_SIZES = tuple(sorted({L + d for L in BLOCK_LIMITS for d in (-1, 0, 1)}))
+PRIMES_ABOVE = (257, 521, 1009, 1031, 2053, 4099)         # smallest prime > each limit
+LARGE_MATCH_KEY = "large_groups"
+
+
+# --------------------------------------------------------------------------- second oracle: analytic, log-domain
+def analytic_nll_grads(kind, am, ph, nv, groups):
+    """Exact gradient of the data set's Born-rule NLL from an OWN implementation of the state (nothing of qucumber is
+    used): RBM log-amplitudes 0.5 * (v.b + sum softplus(W v + c)) (+ a.(U v + d) for the purified state, summed over
+    all auxiliary configurations), dense Kronecker rotations, everything shifted by the largest log-amplitude so that no
+    intermediate can overflow, differentiated by torch autograd in complex128.  groups = [[basis, counts per outcome]].
+    Mixed states: -ln(P + 1e-8) on the UNNORMALISED rotated probability of rotated rows (the library's regulariser),
+    -ln rho(s, s) on all-Z rows.  Returns one flat numpy vector per network in the order [W, (U), b, c, (d)]."""
+    import torch
+    import torch.nn.functional as F
+    dt = torch.double
+    with torch.enable_grad():
+        A = [torch.tensor(np.asarray(x, dtype=float), dtype=dt, requires_grad=True) for x in am]
+        Pp = [torch.tensor(np.asarray(x, dtype=float), dtype=dt, requires_grad=True) for x in ph] if ph is not None else None
+        space = torch.tensor(list(itertools.product([0.0, 1.0], repeat=nv)), dtype=dt)
+
+        def gam(W, b, c):
+            return space @ b + F.softplus(space @ W.t() + c, threshold=1e9).sum(-1)
+        N = float(sum(int(np.sum(c)) for _, c in groups))
+        tot = 0.0
+        kappa = 1.0             # largest cancellation factor sum|terms| / |sum| of a rotated amplitude / probability in the data
+        if kind != "dm":
+            la = 0.5 * gam(*A)
+            phs = 0.5 * gam(*Pp) if Pp is not None else torch.zeros_like(la)
+            m = la.max().detach()
+            psi = torch.exp(torch.complex(la - m, phs))
+            logZ = torch.logsumexp(2 * la, 0)
+            for b, c in groups:
+                cw = torch.tensor(np.asarray(c, dtype=float), dtype=dt)
+                nz = cw > 0
+                U = torch.tensor(kron_u(b), dtype=torch.complex128)
+                a = U @ psi
+                kappa = max(kappa, float(((U.abs() @ psi.abs())[nz] / a[nz].abs()).max().detach()))
+                tot = tot - (cw[nz] * (torch.log(a[nz].real ** 2 + a[nz].imag ** 2) + 2 * m)).sum()
+        else:
+            W, Uw, b_, c_, d_ = A
+            Wp, Up, bp, cp, _dp = Pp
+            na = Uw.shape[0]
+            aux = torch.tensor(list(itertools.product([0.0, 1.0], repeat=na)), dtype=dt)
+            la = 0.5 * (gam(W, b_, c_).unsqueeze(1) + (aux @ d_).unsqueeze(0) + space @ Uw.t() @ aux.t())
+            phs = 0.5 * (gam(Wp, bp, cp).unsqueeze(1) + space @ Up.t() @ aux.t())
+            m = la.max().detach()
+            pur = torch.exp(torch.complex(la - m, phs))
+            rho = pur @ pur.conj().t()                                  # rho / exp(2m)
+            logZ = torch.logsumexp(2 * la.reshape(-1), 0)
+            log_reg = math.log(1e-8)
+            for b, c in groups:
+                cw = torch.tensor(np.asarray(c, dtype=float), dtype=dt)
+                nz = cw > 0
+                if set(b) == {"Z"}:
+                    tot = tot - (cw[nz] * (torch.log(torch.diagonal(rho).real[nz]) + 2 * m)).sum()
+                else:
+                    U = torch.tensor(kron_u(b), dtype=torch.complex128)
+                    P = torch.diagonal(U @ rho @ U.conj().t()).real
+                    Pabs = torch.diagonal(U.abs() @ rho.abs() @ U.abs().t()).real
+                    kappa = max(kappa, float((Pabs[nz] / (P[nz].abs() + 1e-8 * math.exp(-2 * float(m)))).max().detach()))
+                    tot = tot - (cw[nz] * torch.logaddexp(torch.log(P[nz]) + 2 * m, torch.full_like(P[nz], log_reg))).sum()
+        loss = tot / N + logZ
+        nets = [A] + ([Pp] if Pp is not None else [])
+        out = []
+        for net in nets:
+            gs = torch.autograd.grad(loss, net, allow_unused=True, retain_graph=True)
+            out.append(np.concatenate([(g if g is not None else torch.zeros_like(p)).reshape(-1).numpy() for g, p in zip(gs, net)]))
+    return out, kappa
+
+
+def rows_to_groups(bases, samples, nv):
+    cnt = {}
+    for b, row in zip(bases, samples):
+        cnt.setdefault(b, np.zeros(2 ** nv, dtype=int))[int(idx_of(row)[0])] += 1
+    return [[b, c.tolist()] for b, c in cnt.items()]
+
+
+KAPPA_MAX = 1e6     # beyond this the rotated amplitude of a data row is a difference of nearly equal numbers: neither the library
+                    # nor this oracle resolves its gradient to 1e-7; such a data set is only counted (analytic_skipped_cancellation)
+
+
+def analytic_matches(kind, am, ph, nv, groups, grads, tol=1e-7):
+    """(True, None, err) iff every entry of every network's returned gradient equals the analytic one within tol * max(1, |g|_max);
+    (None, info, nan) when the data set is too ill-conditioned for a verdict"""
+    an, kappa = analytic_nll_grads(kind, am, ph, nv, groups)
+    if not (kappa < KAPPA_MAX) or not all(np.all(np.isfinite(a)) for a in an):
+        return None, {"cancellation_factor": kappa}, float("nan")
+    worst = 0.0
+    for ni, (a, g) in enumerate(zip(an, grads)):
+        g = np.asarray(g, dtype=float).reshape(-1)
+        if a.shape != g.shape:
+            return False, {"net_index": ni, "shape_analytic": list(a.shape), "shape_grad": list(g.shape)}, float("inf")
+        lim = tol * max(1.0, float(np.max(np.abs(a))))
+        err = np.abs(a - g)
+        if not np.all(err <= lim):
+            k = int(np.argmax(~(err <= lim)))
+            return False, {"net_index": ni, "param_index": k, "analytic": float(a[k]), "returned": float(g[k]),
+                           "n_bad": int(np.sum(~(err <= lim)))}, float(np.max(err / max(1.0, float(np.max(np.abs(a))))))
+        worst = max(worst, float(np.max(err)) / max(1.0, float(np.max(np.abs(a)))))
+    return True, None, worst
+
+
+def hilbert_rows_by_index(space):
+    sp = space.numpy()
+    return sp[np.argsort(idx_of(sp))]
+
+
+def expand_groups(groups, perm_seed, nv):
+    """groups = [[basis string, [count of outcome 0, count of outcome 1, ...]], ...] -> permuted rows
+    (basis letters (N, nv), outcome indices (N,)); deterministic in perm_seed."""
+    letters, outs = [], []
+    for b, cnt in groups:
+        cnt = np.asarray(cnt, dtype=int)
+        k = int(cnt.sum())
+        if k == 0:
+            continue
+        letters.append(np.tile(np.array(list(b)), (k, 1)))
+        outs.append(np.repeat(np.arange(len(cnt)), cnt))
+    letters = np.concatenate(letters, axis=0)
+    outs = np.concatenate(outs)
+    perm = np.random.default_rng(int(perm_seed)).permutation(len(outs))
+    return letters[perm].reshape(-1, nv), outs[perm]
+
+
+def make_nll_weighted(s, kind, space, groups, Ucache):
+    """f() = NLL of the data set given as counts per (basis, outcome) — the same number as make_nll on the expanded rows"""
+    G = [(b, np.asarray(c, dtype=float)) for b, c in groups if int(np.sum(c)) > 0]
+    for b, _ in G:
+        Ucache.setdefault(b, kron_u(b))
+    N = float(sum(c.sum() for _, c in G))
+
+    def f():
+        arr, Z = state_arrays(s, kind, space)
+        tot = 0.0
+        for b, c in G:
+            U = Ucache[b]
+            nz = c > 0
+            if kind == "dm":
+                if set(b) == {"Z"}:
+                    tot -= float(np.sum(c[nz] * np.log(np.real(np.diagonal(arr))[nz])))
+                else:
+                    P = np.real(np.einsum("ij,jk,ik->i", U, arr, U.conj()))
+                    tot -= float(np.sum(c[nz] * np.log(P[nz] + 1e-8)))
+            else:
+                a = U @ arr
+                tot -= float(np.sum(c[nz] * np.log(np.abs(a[nz]) ** 2)))
+        return tot / N + math.log(Z)
+    return f
+
+
+def draw_group_counts(ctx, s, kind, space, basis, size, Ucache):
+    """`size` rows measured in `basis`, spread at random over the outcomes of probability >= 1e-4"""
+    p = outcome_probs(s, kind, space, basis, Ucache)
+    good = np.where(p >= 1e-4)[0]
+    cnt = np.zeros(len(p), dtype=int)
+    if good.size == 0 or size == 0:
+        return cnt.tolist()
+    w = ctx.rng.dirichlet(np.ones(good.size))
+    cnt[good] = ctx.rng.multinomial(int(size), w)
+    return cnt.tolist()
+
+
+def large_oracle(ctx, s, kind, space, groups, perm_seed, case, am=None, ph=None, corr=False):
+    import torch
+    nv = int(space.shape[1])
+    nnet = len(s.networks)
+    rows_of = hilbert_rows_by_index(space)
+    nb, outs = expand_groups(groups, perm_seed, nv)
+    N = len(outs)
+    smp = torch.tensor(rows_of[outs], dtype=torch.double)
+    pos = kind == "positive"
+    kw = (lambda x: {}) if pos else (lambda x: {"bases": x})
+    kwb = (lambda x: {}) if pos else (lambda x: {"bases_batch": x})
+    ok, G = ctx.call("gradient (large same-basis groups)", case, lambda: tlist(s.gradient(smp, **kw(nb))))
+    ok2, PP = ctx.call("positive_phase_gradients (large same-basis groups)", case, lambda: tlist(s.positive_phase_gradients(smp, **kwb(nb))))
+    ok3, EX = ctx.call("compute_exact_gradients (large same-basis groups)", case, lambda: tlist(s.compute_exact_gradients(smp, space, **kwb(nb))))
+    if not (ok and ok2 and ok3):
+        return
+    npar = [getattr(s, net).num_pars for net in s.networks]
+    shapes_ok = len(G) == nnet and len(PP) == nnet and len(EX) == nnet and all(
+        [int(np.size(g)) for g in X] == npar for X in (G, PP, EX))
+    ctx.require("gradient vectors have num_pars entries (large same-basis groups)", shapes_ok, case,
+                {"sizes": [[int(np.size(g)) for g in X] for X in (G, PP, EX)], "num_pars": npar})
+    if not shapes_ok:
+        return
+    scale = [max(1.0, float(np.max(np.abs(g)))) for g in G]
+    # -- per-sample (1-D call form) gradients, one call per distinct (basis, outcome), weighted by the counts
+    acc = [np.zeros(n) for n in npar]
+    per_group = []
+    ok1 = True
+    for b, cnt in groups:
+        part = [np.zeros(n) for n in npar]
+        for o, c in enumerate(cnt):
+            if c == 0:
+                continue
+            row = torch.tensor(rows_of[o], dtype=torch.double)
+            okk, g1 = ctx.call("gradient 1-D form", case, lambda: tlist(s.gradient(row, **kw(np.array(list(b))))))
+            if not okk:
+                ok1 = False
+                break
+            for k in range(nnet):
+                part[k] = part[k] + c * np.broadcast_to(g1[k], (npar[k],))
+        if not ok1:
+            break
+        per_group.append((b, int(np.sum(cnt)), part))
+        for k in range(nnet):
+            acc[k] = acc[k] + part[k]
+
+    def group_diagnosis():
+        """which same-basis groups, taken alone, already deviate from the sum of their per-sample gradients"""
+        bad = []
+        for b, k, part in per_group:
+            if k == 0:
+                continue
+            sel = np.where((nb == np.array(list(b))).all(axis=1))[0]
+            try:
+                gg = tlist(s.gradient(smp[sel], **kw(nb[sel])))
+                d = max(float(np.max(np.abs(np.broadcast_to(gg[j], (npar[j],)) - part[j]))) for j in range(nnet))
+                if d > 1e-9 * max(scale):
+                    bad.append({"basis": b, "rows": k, "max_diff_alone": d})
+            except Exception as e:
+                bad.append({"basis": b, "rows": k, "raised": repr(e)[:120]})
+        return bad[:6]
+
+    if ok1:
+        for k in range(nnet):
+            good = bool(np.allclose(acc[k], G[k], rtol=1e-8, atol=1e-9 * scale[k]))
+            ctx.require("gradient(batch) == sum of per-sample gradients (1-D form), large same-basis groups", good, case,
+                        None if good else {"net": s.networks[k], "max_diff": float(np.max(np.abs(acc[k] - G[k]))), "groups": group_diagnosis()})
+            good = bool(np.allclose(acc[k] / N, PP[k], rtol=1e-8, atol=1e-9 * scale[k] / N))
+            ctx.require("positive_phase_gradients == mean of per-sample gradients, large same-basis groups", good, case,
+                        None if good else {"net": s.networks[k], "max_diff": float(np.max(np.abs(acc[k] / N - PP[k])))})
+    for k in range(nnet):
+        ctx.require("positive_phase_gradients == gradient / |batch| (large same-basis groups)",
+                    bool(np.allclose(PP[k], G[k] / N, rtol=1e-9, atol=1e-11 * scale[k] / N)), case, {"net": s.networks[k]})
+    # -- finite differences of the count-weighted NLL, every parameter of every network
+    f = make_nll_weighted(s, kind, space, groups, {})
+    good, det = fd_matches(s, f, EX)
+    ctx.require("compute_exact_gradients == finite-difference gradient of the NLL (large same-basis groups)", good, case, det)
+    # -- any row order, any split into contiguous parts
+    perm = ctx.rng.permutation(N)
+    # mixed states cost ~0.1 ms per rotated row and call: quick tier takes the permutation OR the split there
+    which = "both" if (kind != "dm" or ctx.thorough) else ("perm" if ctx.rng.random() < 0.5 else "split")
+    okp = False
+    if which != "split":
+        okp, Gp = ctx.call("gradient (permuted rows, large same-basis groups)", case, lambda: tlist(s.gradient(smp[perm], **kw(nb[perm]))))
+    if okp:
+        for k in range(nnet):
+            ctx.require("gradient is invariant under row permutation (large same-basis groups)",
+                        bool(np.allclose(Gp[k], G[k], rtol=1e-8, atol=1e-9 * scale[k])), case,
+                        {"net": s.networks[k], "max_diff": float(np.max(np.abs(np.asarray(Gp[k]) - G[k])))})
+    nparts = int(ctx.rng.integers(2, 9))
+    cuts = sorted(set(int(c) for c in ctx.rng.integers(1, N, size=nparts - 1))) if N >= 2 else []
+    edges = [0] + cuts + [N]
+    tot = [np.zeros(n) for n in npar]
+    okall = which != "perm"
+    for a, bnd in zip(edges[:-1], edges[1:]):
+        if not okall:
+            break
+        oks, gs = ctx.call("gradient (contiguous part of the batch, large same-basis groups)", case,
+                           lambda: tlist(s.gradient(smp[a:bnd], **kw(nb[a:bnd]))))
+        if not oks:
+            okall = False
+            break
+        for k in range(nnet):
+            tot[k] = tot[k] + np.broadcast_to(gs[k], (npar[k],))
+    if okall:
+        for k in range(nnet):
+            ctx.require("gradient(batch) == sum of the gradients of its contiguous parts (large same-basis groups)",
+                        bool(np.allclose(tot[k], G[k], rtol=1e-8, atol=1e-9 * scale[k])), case,
+                        {"net": s.networks[k], "cuts": cuts, "max_diff": float(np.max(np.abs(tot[k] - G[k])))})
+    # -- reference-basis form without bases on the whole (large) batch: one group of N rows on the all-Z path
+    ok0, G0 = ctx.call("gradient(bases=None) (large batch)", case, lambda: tlist(s.gradient(smp)))
+    if ok0:
+        tot_cnt = np.zeros(rows_of.shape[0])
+        np.add.at(tot_cnt, outs, 1.0)
+        acc0 = [np.zeros(n) for n in npar]
+        okz = True
+        for o, c in enumerate(tot_cnt):
+            if c == 0:
+                continue
+            okk, g1 = ctx.call("gradient 1-D form without bases", case, lambda: tlist(s.gradient(torch.tensor(rows_of[o], dtype=torch.double))))
+            if not okk:
+                okz = False
+                break
+            for k in range(nnet):
+                acc0[k] = acc0[k] + c * np.broadcast_to(g1[k], (npar[k],))
+        if okz:
+            sc0 = max(1.0, float(np.max(np.abs(acc0[0]))))
+            for k in range(nnet):
+                ctx.require("gradient(bases=None) of a large batch == sum of per-sample gradients without bases",
+                            bool(np.allclose(np.broadcast_to(G0[k], (npar[k],)), acc0[k], rtol=1e-8, atol=1e-9 * sc0)), case,
+                            {"net": s.networks[k], "rows": N})
+    if pos:
+        oka, AL = ctx.call("compute_exact_grads (large batch)", case, lambda: tlist(s.compute_exact_grads(smp, space)))
+        if oka:
+            ctx.require("compute_exact_grads == compute_exact_gradients (large batch)",
+                        len(AL) == 1 and bool(np.allclose(AL[0], EX[0], rtol=1e-9, atol=1e-11 * scale[0])), case)
+        okb, Gb = ctx.call("gradient with ignored bases argument (large batch)", case, lambda: tlist(s.gradient(smp, nb)))
+        if okb:
+            ctx.require("Positive.gradient ignores bases (large batch)", bool(np.allclose(Gb[0], G[0], rtol=1e-9, atol=1e-11 * scale[0])), case)
+    # -- correspondence with the extracted model on the expanded rows
+    if corr:
+        m = ctx.get_model()
+        sp = space.numpy()
+        samples = rows_of[outs].tolist()
+        if pos:
+            mg, mpp, mex, _ = m.call("c03_pos_all", *am, samples, sp)
+            mg, mpp, mex = [mg], [mpp], [mex]
+        else:
+            mg, mpp, mex = m.call("c03_cw_all" if kind == "complex" else "c03_dm_all", *am, *ph, bnum(["".join(r) for r in nb]), samples, sp)
+        for k in range(nnet):
+            sc = max(1.0, float(np.max(np.abs(mg[k]))))
+            ctx.agree("%s gradient[%d] (large same-basis groups)" % (kind, k), G[k], mg[k], case, rtol=1e-6, atol=1e-8, scale=sc)
+            ctx.agree("%s positive_phase_gradients[%d] (large same-basis groups)" % (kind, k), PP[k], mpp[k], case, rtol=1e-6, atol=1e-8,
+                      scale=max(1.0, sc / N))
+            ctx.agree("%s compute_exact_gradients[%d] (large same-basis groups)" % (kind, k), EX[k], mex[k], case, rtol=1e-6, atol=1e-8,
+                      scale=max(1.0, float(np.max(np.abs(mex[k])))))
+
+
+def large_case(ctx, kind, nv, nh, na, sizes=None, corr=False, given=None):
+    """sizes: {basis string: number of rows}.  One state, one batch holding all these groups (randomly interleaved)."""
+    if given is None:
+        am, ph = draw_params(ctx, kind, nv, nh, na)
+    else:
+        am, ph = given["am"], given["ph"]
+    s = build(kind, nv, nh, na, am, ph)
+    space = s.generate_hilbert_space()
+    if given is None:
+        Ucache = {}
+        groups = [[b, draw_group_counts(ctx, s, kind, space, b, k, Ucache)] for b, k in sizes.items()]
+        groups = [g for g in groups if sum(g[1]) > 0]
+        perm_seed = int(ctx.rng.integers(0, 2 ** 31 - 1))
+    else:
+        groups, perm_seed = given["large_groups"], given["perm_seed"]
+    if not groups:
+        ctx.count("skipped_no_probable_outcome")
+        return
+    gs = {b: int(sum(c)) for b, c in groups}
+    N = sum(gs.values())
+    case = {"state": kind, "nv": nv, "nh": nh, "na": na, "am": gen.plist(*am), "ph": gen.plist(*ph) if ph is not None else None,
+            LARGE_MATCH_KEY: [[b, [int(x) for x in c]] for b, c in groups], "perm_seed": perm_seed, "rows": N,
+            "rows_per_basis": gs,
+            "how_to_expand": "rows of basis b: outcome index o (site 0 = most significant bit) repeated counts[o] times, groups concatenated "
+                             "in the listed order, then rows[numpy.random.default_rng(perm_seed).permutation(N)]"}
+    rotated_big = [k for b, k in gs.items() if set(b) != {"Z"} and k > 255]
+    nontriv = N > 255 and (kind == "positive" or bool(rotated_big))
+    ctx.case({"state": kind, "nv": nv, "nh": nh, "na": na, "rows": N, "bases": len(gs), "largest_group": max(gs.values()),
+              "w00": float(np.asarray(am[0])[0, 0]), "perm_seed": perm_seed}, nontrivial=nontriv)
+    ctx.count("large:state:" + kind); ctx.count("large:rows", N)
+    for b, k in gs.items():
+        lim = [L for L in BLOCK_LIMITS if k > L]
+        ctx.count("large:group_size_above:%d" % (max(lim) if lim else 0) + (":allZ" if set(b) == {"Z"} else ":rotated"))
+    large_oracle(ctx, s, kind, space, groups, perm_seed, case, am=am, ph=ph, corr=corr)
+    ctx.traces += 1
+    ctx.count("completed_large:" + kind)
+
+
+def spread_sizes(ctx, bases, sizes, small=(0, 4)):
+    """assign the given group sizes to randomly chosen bases (rotated ones first), the other bases get a few rows"""
+    order = [bases[i] for i in ctx.rng.permutation(len(bases))]
+    out = {}
+    for b, k in zip(order, sizes):
+        out[b] = int(k)
+    for b in order[len(sizes):]:
+        out[b] = int(ctx.rng.integers(small[0], small[1]))
+    return out
+
+
+def fixed_large_cases(ctx):
+    """always run, before anything a time budget could cut"""
+    # (1) the whole batch is ONE rotated group just above 1024 rows (1025 = 2 pieces, one row over), bases with Y
+    ctx.torch_seed()
+    large_case(ctx, "complex", 2, 3, 0, {"XY": 1025}, corr=True)
+    # (2) every boundary size L-1, L, L+1 of the usual block sizes and the primes above them, one group each, one batch
+    b3 = gen.all_bases(3)
+    rot3 = [b for b in b3 if set(b) != {"Z"}]
+    sizes = [k for k in BOUNDARY_SIZES if k not in (2047, 4095)] + [p for p in PRIMES_ABOVE if p != 257] + [263]
+    ctx.torch_seed()
+    d = spread_sizes(ctx, rot3, sizes[:len(rot3)])
+    d["ZZZ"] = 1025
+    large_case(ctx, "complex", 3, 2, 0, d)
+    # (3) mixed state: one doubly rotated group (16 rotation terms per row: the expensive path) above 1024, singly
+    #     rotated groups and the all-Z group at other limits
+    ctx.torch_seed()
+    two = [b for b in gen.all_bases(2) if "Z" not in b]
+    one = [b for b in gen.all_bases(2) if b.count("Z") == 1]
+    d = {two[int(ctx.rng.integers(0, len(two)))]: int(ctx.rng.choice([1025, 1031]))}
+    d.update(spread_sizes(ctx, one, [2053, int(ctx.rng.choice([1023, 1024, 1001]))], small=(0, 3)))
+    d["ZZ"] = 1031
+    large_case(ctx, "dm", 2, 1, 1, d)
+    # (4) mixed state, one site: X / Y / Z groups across the larger limits
+    ctx.torch_seed()
+    large_case(ctx, "dm", 1, 2, 2, spread_sizes(ctx, ["X", "Y", "Z"], [1025, 513, 4099]), corr=False)
+    # (5) positive wavefunction: the whole batch is one group (all-Z path)
+    ctx.torch_seed()
+    large_case(ctx, "positive", 2, 3, 0, {"ZZ": int(ctx.rng.choice([1025, 2053, 4099]))}, corr=True)
+
+
+def random_large_case(ctx):
+    kind = str(ctx.rng.choice(["complex", "dm", "positive"], p=[0.45, 0.4, 0.15]))
+    pool = list(BOUNDARY_SIZES) + list(PRIMES_ABOVE) * 2 + [int(x) for x in ctx.rng.integers(1025, 5000, size=12)]
+    big = [x for x in pool if x > 1024]
+
+    def pick(k, cap=None):
+        """k group sizes, the first one above 1024 rows"""
+        pl = [x for x in pool if cap is None or x <= cap]
+        bg = [x for x in big if cap is None or x <= cap]
+        return [int(ctx.rng.choice(bg))] + [int(x) for x in ctx.rng.choice(pl, size=k - 1)]
+    if kind == "positive":
+        nv = int(ctx.rng.integers(1, 4))
+        sizes = {"Z" * nv: pick(1)[0]}
+        nh, na = int(ctx.rng.integers(1, 4)), 0
+    elif kind == "complex":
+        nv = int(ctx.rng.integers(1, 4 if not ctx.thorough else 5))
+        allb = gen.all_bases(nv)
+        k = int(ctx.rng.integers(1, min(len(allb), 6) + 1))
+        sizes = spread_sizes(ctx, allb, pick(k))
+        nh, na = int(ctx.rng.integers(1, 4)), 0
+    else:
+        nv = int(ctx.rng.integers(1, 3))
+        allb = gen.all_bases(nv)
+        cheap = [b for b in allb if sum(ch != "Z" for ch in b) <= 1]
+        dear = [b for b in allb if b not in cheap]
+        k = int(ctx.rng.integers(1, 4))
+        sizes = spread_sizes(ctx, cheap, pick(min(k, len(cheap))), small=(0, 3))
+        if dear:                                            # 4^2 rotation terms per row: one such group, at most ~2000 rows (quick)
+            cap = 5000 if ctx.thorough else 2100
+            sizes[dear[int(ctx.rng.integers(0, len(dear)))]] = pick(1, cap)[0]
+            for b in dear:
+                sizes.setdefault(b, int(ctx.rng.integers(0, 3)))
+        nh, na = int(ctx.rng.integers(1, 3)), int(ctx.rng.integers(1, 3))
+    ctx.torch_seed()
+    large_case(ctx, kind, nv, nh, na, sizes)
+
+
 # --------------------------------------------------------------------------- one generated case
 def one_case(ctx, kind, nv, nh, na, corr=True, given=None):
     import torch
@@ -808,7 +1382,7 @@ def one_case(ctx, kind, nv, nh, na, corr=True, given=None):
               "w00": float(np.asarray(am[0])[0, 0])}, nontrivial=nontriv)
     ctx.count("state:" + kind); ctx.count("nv:%d" % nv); ctx.count("rows", len(bases))
     ctx.count("bases_with_Y", sum(1 for b in distinct if "Y" in b)); ctx.count("all_Z_rows", sum(1 for b in bases if set(b) == {"Z"}))
-    impl = oracle_case(ctx, s, kind, space, bases, samples, case)
+    impl = oracle_case(ctx, s, kind, space, bases, samples, case, am=am, ph=ph)
     if corr and impl is not None:
         corr_state_level(ctx, s, kind, am, ph, space, bases, samples, case, impl)
         corr_layout(ctx, s, kind, am, ph, case)
@@ -844,11 +1418,17 @@ def jobs(ctx, draws):
     return out
 
 
-BUDGET_S = {"quick": 20, "thorough": 420}      # generation budget; the first two cases of every state type ignore it
+BUDGET_S = {"quick": 18, "thorough": 420}      # generation budget; the first two cases of every state type ignore it
 
 
 def run(ctx):
     draws = 3 if ctx.thorough else 2
+    # size regime first: fixed large same-basis groups, then a few random ones (cheap; never cut by the budget below)
+    tl = time.time()
+    fixed_large_cases(ctx)
+    for _ in range(12 if ctx.thorough else 2):
+        random_large_case(ctx)
+    ctx.extra["large_cases_wall_s"] = round(time.time() - tl, 2)
     t0 = time.time()
     budget = BUDGET_S["thorough" if ctx.thorough else "quick"]
     for (kind, nv, nh, na) in jobs(ctx, draws):
@@ -868,7 +1448,13 @@ def search(ctx, broken, budget):
     """Wider oracle-only sweep when the proof or the correspondence broke."""
     t0 = time.time()
     n0 = len(ctx.failures)
+    fixed_large_cases(ctx)
+    if len(ctx.failures) > n0:
+        return ctx.failures[n0]
     for rnd in range(50):
+        random_large_case(ctx)
+        if len(ctx.failures) > n0:
+            return ctx.failures[n0]
         for kind in ("positive", "complex", "dm"):
             for (nv, nh, na) in [(1, 1, 1), (1, 2, 2), (2, 1, 1), (2, 3, 2), (2, 2, 1), (3, 2, 2)]:
                 one_case(ctx, kind, nv, nh, na if kind == "dm" else 0, corr=False)
@@ -883,6 +1469,11 @@ def replay(ctx, rec):
     case = rec.get("failing", {}).get("case") or {}
     if not case.get("state"):
         run(ctx)
+        return
+    if case.get(LARGE_MATCH_KEY):
+        print("replay of", case["state"], "nv=%s nh=%s na=%s" % (case["nv"], case["nh"], case["na"]), "rows per basis:", case.get("rows_per_basis"))
+        large_case(ctx, case["state"], case["nv"], case["nh"], case["na"], corr=True,
+                   given={"am": case["am"], "ph": case["ph"], LARGE_MATCH_KEY: case[LARGE_MATCH_KEY], "perm_seed": case["perm_seed"]})
         return
     print("replay of", case["state"], "nv=%s nh=%s na=%s" % (case["nv"], case["nh"], case["na"]), "rows=%d" % len(case["bases"]))
     one_case(ctx, case["state"], case["nv"], case["nh"], case["na"], corr=True,
